@@ -3,6 +3,8 @@ package props
 import (
 	"fmt"
 	"strings"
+	"sync"
+	"sync/atomic"
 	"testing"
 	"time"
 
@@ -270,6 +272,14 @@ func TestC06(t *testing.T) {
 	kit.ClassN(fmt.Sprintf("exhaustive-depth-%d", depth), cnt)
 	kit.SetExhaustive()
 	kit.SampleForce(c06Case{Names: []string{"acquire", "reload-new-ok", "use", "release"}})
+	// concurrent phase: readers acquire / use / release in three goroutines while the
+	// main goroutine reloads to new backends; the instrumented backends record any use
+	// after close or second close (a reader created outside the reload lock shows here)
+	for round := 0; round < kit.Pick(3, 30); round++ {
+		c06Concurrent(t, 150*time.Millisecond)
+		kit.Eval()
+		kit.Class("concurrent-readers-vs-reloads")
+	}
 	// random long histories
 	kit.SetRapid(kit.N(4000, 200000))
 	rapid.Check(t, kit.Prop("C06", func(t *rapid.T) {
@@ -296,4 +306,71 @@ func TestC06(t *testing.T) {
 		kit.Sample(cs)
 		kit.Class("random-history")
 	}))
+}
+
+func c06Concurrent(t kit.Fataler, d time.Duration) {
+	cs := c06Case{Names: []string{"concurrent: 3 reader goroutines vs. back-to-back reload-new-ok"}}
+	fw, b0 := kit.NewFakeWorld()
+	h, err := dnsserver.NewFBDNSDBBasic(dnsserver.HandlerConfig{}, dnsserver.DBConfig{Path: "same", Driver: "fake", ReloadTimeout: c06LongTimeout, ValidationKey: fw.VKey}, dnsserver.CacheConfig{}, &dnsserver.DummyLogger{}, &stats.DummyStats{})
+	if err != nil {
+		kit.Fail(t, "C06", "setup-error", cs, "%v", err)
+		return
+	}
+	h.VerifSetDB(db.NewDBWithBackend(b0))
+	stop := make(chan struct{})
+	var wg sync.WaitGroup
+	var acquireErr atomic.Value
+	for g := 0; g < 3; g++ {
+		wg.Add(1)
+		go func() {
+			defer wg.Done()
+			for {
+				select {
+				case <-stop:
+					return
+				default:
+				}
+				r, err := h.AcquireReader()
+				if err != nil {
+					acquireErr.Store(err)
+					return
+				}
+				_ = r.ForEach([]byte("k"), func([]byte) error { return nil })
+				r.Close()
+			}
+		}()
+	}
+	deadline := time.Now().Add(d)
+	n := 0
+	for time.Now().Before(deadline) {
+		n++
+		if err := h.Reload(*dnsserver.NewFullReloadSignal(fmt.Sprintf("new-ok#%d", n))); err != nil {
+			kit.Fail(t, "C06", "good-reload-failed", cs, "concurrent phase: %v", err)
+		}
+	}
+	close(stop)
+	wg.Wait()
+	h.Close()
+	if e := acquireErr.Load(); e != nil {
+		kit.Fail(t, "C06", "acquire-error", cs, "concurrent phase: AcquireReader: %v", e)
+	}
+	ok := kit.WaitFor(5*time.Second, func() bool {
+		for _, b := range fw.Backends {
+			if b.Closed() != 1 {
+				return false
+			}
+		}
+		return true
+	})
+	ev, v := fw.Snapshot()
+	if len(v) > 0 {
+		if len(ev) > 60 {
+			ev = ev[len(ev)-60:]
+		}
+		cs.Events = ev
+		kit.Fail(t, "C06", strings.SplitN(v[0], ":", 2)[0]+"/concurrent", cs, "readers concurrent with %d reloads: %s (last events: %v)", n, v[0], ev)
+	}
+	if !ok {
+		kit.Fail(t, "C06", "leak/concurrent", cs, "readers concurrent with %d reloads: not every backend was closed exactly once", n)
+	}
 }
